@@ -13,7 +13,7 @@ MC_DEPTH = {
 # generation slices: name -> (quick MaxDepth, thorough MaxDepth)
 GEN_DEPTH = {
     "GEN_relayA": (6, 7), "GEN_relayB": (6, 7), "GEN_relayD": (4, 5), "GEN_time": (7, 8), "GEN_users": (5, 6),
-    "GEN_iso": (4, 5), "GEN_v6": (4, 5), "GEN_v6strict": (5, 6), "GEN_mtu": (4, 4), "GEN_mtu1200": (4, 4), "GEN_resv": (4, 5),
+    "GEN_iso": (4, 5), "GEN_v6": (4, 5), "GEN_v6strict": (5, 6), "GEN_mtu": (4, 4), "GEN_mtu1200": (4, 4), "GEN_resv": (4, 5), "GEN_recycle": (7, 8),
 }
 
 
@@ -116,7 +116,7 @@ def c18_run(ctx):
 
 
 def c05_run(ctx):
-    core_run(["MC_mtu"], ["GEN_mtu", "GEN_mtu1200", "GEN_relayA"])(ctx)
+    core_run(["MC_mtu"], ["GEN_mtu", "GEN_mtu1200", "GEN_relayA", "GEN_recycle"])(ctx)
     if not ctx.violations:
         n = 24 if ctx.tier == "quick" else 300
         ctx.trace_validate("relay", "TestRelayTrace", "TraceRelay.tla", "TraceRelay.cfg", n)
@@ -130,10 +130,10 @@ def c14_run(ctx):
 
 PROPS = {
     "C01": dict(title="client data leaves only toward authorised peers", level="model_checking",
-                run=core_run(["MC_relay", "MC_relayB", "MC_tcp"], ["GEN_relayA", "GEN_relayB", "GEN_relayD", "GEN_v6", "GEN_tcpB"]),
+                run=core_run(["MC_relay", "MC_relayB", "MC_tcp", "MC_iso"], ["GEN_relayA", "GEN_relayB", "GEN_relayD", "GEN_v6", "GEN_tcpB", "GEN_iso"]),
                 assumptions=BASE_ASSUME + ["the TCP connect target clause is decided on TurnTCP.tla (Connect to a vetoed peer: 403, no connection)"]),
     "C02": dict(title="only authorised peers reach the client", level="model_checking",
-                run=core_run(["MC_relay", "MC_relayB", "MC_v6", "MC_tcp"], ["GEN_relayA", "GEN_relayB", "GEN_relayD", "GEN_v6", "GEN_tcpA"]),
+                run=core_run(["MC_relay", "MC_relayB", "MC_v6", "MC_tcp"], ["GEN_relayA", "GEN_relayB", "GEN_relayD", "GEN_v6", "GEN_tcpA", "GEN_recycle"]),
                 assumptions=BASE_ASSUME + ["the TCP clause (a peer connection is announced only with a live permission for its source IP, else closed silently) is decided on TurnTCP.tla"]),
     "C03": dict(title="state changes only with valid long-term credentials", level="model_checking",
                 run=core_run(["MC_auth", "MC_noauth", "MC_nonce"], ["GEN_auth", "GEN_noauth", "GEN_nonce", "GEN_users", "GEN_tcpB"]),
@@ -141,7 +141,7 @@ PROPS = {
                                            "bytes are compared and when, for the credential-defect classes of TurnAuth.tla and the mutation classes of Nonce.tla",
                                            "nonce ages 3601..3659 s are a grey band (implementation granularity) that is never probed"]),
     "C04": dict(title="allocations are isolated by 5-tuple", level="model_checking",
-                run=core_run(["MC_iso", "MC_relay"], ["GEN_iso", "GEN_relayD", "GEN_v6", "GEN_tcpB"]),
+                run=core_run(["MC_iso", "MC_relay"], ["GEN_iso", "GEN_relayD", "GEN_v6", "GEN_tcpB", "GEN_relaygenA"]),
                 assumptions=BASE_ASSUME),
     "C05": dict(title="payloads intact, exactly once, truthful attribution", level="model_checking",
                 run=c05_run,
@@ -156,7 +156,7 @@ PROPS = {
                 run=core_run(["MC_relay", "MC_relayB", "MC_steps"], ["GEN_relayA", "GEN_relayB", "GEN_steps"]),
                 assumptions=BASE_ASSUME + ["instants at which a timer is due are explored only by the gated schedules of TurnServerSteps.tla (a refresh racing the pending expiry callback: known finding D14)"]),
     "C08": dict(title="channel bindings are a bijection inside 0x4000-0x7FFF", level="model_checking",
-                run=core_run(["MC_relay", "MC_relayB"], ["GEN_relayA", "GEN_relayB", "GEN_relayD"]),
+                run=core_run(["MC_relay", "MC_relayB"], ["GEN_relayA", "GEN_relayB", "GEN_relayD", "GEN_recycle"]),
                 assumptions=BASE_ASSUME),
     "C09": dict(title="no input can crash, wedge or spin an endpoint", level="exploration",
                 run=core_run(["MC_disp_serverudp", "MC_disp_serverstream", "MC_disp_client", "MC_framer"],
@@ -239,7 +239,7 @@ PROPS = {
                              "NOT decided by this family of technique: data races (a TLA+ model has no memory model; the thorough tier runs the same replays under the race detector, which only monitors the schedules replayed) and lock release over all control-flow paths (only the paths the generated behaviours drive)",
                              "call-outs that take time while the library holds a lock (OnPermissionDeleted, OnChannelDeleted, OnPermissionCreated on the ChannelBind path) cannot take virtual time (synctest does not see mutex waits); they are gated, not slept in"]),
     "C19": dict(title="responses correlated, truthful, idempotent", level="model_checking",
-                run=core_run(["MC_time", "MC_iso", "MC_resv"], ["GEN_time", "GEN_users", "GEN_iso", "GEN_v6", "GEN_v6strict", "GEN_resv"]),
+                run=core_run(["MC_time", "MC_iso", "MC_resv"], ["GEN_time", "GEN_users", "GEN_iso", "GEN_v6", "GEN_v6strict", "GEN_resv", "GEN_relaygenA"]),
                 assumptions=BASE_ASSUME),
 }
 
